@@ -11,6 +11,13 @@ Every decode of the real code runs
   S3 correspondence   Lean cost model (drv_c05) vs implementation: outcome (ok / exception class), consumed
                       bytes, number of unmarshaller invocations (equal), result nodes <= model size;
                       implementation steps <= the proved bound printed by the driver.
+                      Stream `cost-vs-code-vs-impl` (extension 2026-09-30): every `unmarshal` case of the other streams (hostile
+                      and valid alike, data <= 2 KB) is ALSO given to the driver's `x` command, which runs both hand models
+                      of the decoder at the fuels of theorem `cost_agrees_with_code` - the cost model and the value model
+                      `Code.unmarshal` of C01 / C02 - and the three verdicts (cost model, value model, real decoder) are
+                      compared: outcome, consumed bytes, number of top-level values.  Where the driver binary of C01 is
+                      present and not older than its sources, the same inputs go through `drv_c01 unmarshal` as well (the
+                      value model as C01 itself runs it, fuel 300) and its verdict is compared with the one above.
   S4 property oracle  (implementation only) the decode returns or raises an ordinary Exception within
                       K*(len+1) counted invocations (K from the proved bound: longest signature in play + 2),
                       the result has at most steps+1 nodes and its strings together at most len(data)
@@ -27,10 +34,12 @@ import sys
 import time
 
 STREAMS = ['unmarshal-valid-truncated-mutated', 'message-truncated-mutated', 'lying-lengths',
-           'hostile-signatures', 'hostile-message-signature', 'huge-lengths', 'random-bytes', 'scaling']
+           'hostile-signatures', 'hostile-message-signature', 'huge-lengths', 'random-bytes', 'scaling',
+           'cost-vs-code-vs-impl']
 THEOREMS = ['tables_good', 'unmarshal_fuel_adequate', 'unmarshal_steps_linear', 'unmarshal_work_linear',
             'unmarshal_depth_bounded', 'result_size_bounded', 'result_chars_bounded', 'unmarshal_bounded',
-            'parseMessage_total', 'parseMessage_work_linear', 'prefix_array_loop_never_terminates']
+            'parseMessage_total', 'parseMessage_work_linear', 'prefix_array_loop_never_terminates',
+            'cost_agrees_with_code', 'cost_simulates_code', 'code_fuel_adequate', 'code_result_bounded']
 TRUSTED_BASE = [
     'Python semantics mirrored by hand in Wire/Cost.lean and validated only by the streams: struct.unpack_from '
     'bounds rule (offset + size <= len), slice clamping, codecs.decode utf-8/ascii (Wire/Utf8.lean), generator '
@@ -47,6 +56,9 @@ TRUSTED_BASE = [
     'oracle of the thorough tier (n vs 4n up to 1 MB)',
     'the factor K = 257 of the step budget is a constant derived from the Lean proof (longest wire signature + 2), not from '
     'the property statement; the worst generated case needs ~16 invocations per byte',
+    'composition with C01 / C02 (cost_agrees_with_code): the value model Wire/Code.lean and its tables Gen/Wire.lean, '
+    'Gen/Validators.lean are now inside this property\'s import closure (read-only; owned by C01 / C18); the two sets of '
+    'tables are related inside Lean by decide-checked, order-independent checks (CostVsCode.alignOk / kindOk)',
 ]
 ASSUMPTIONS = [
     "reading of 'never recurses without bound': nesting depth is bounded by the INPUT (theorem unmarshal_depth_bounded: "
@@ -319,6 +331,36 @@ def case_line(c):
         return 'u 1 %d %d %s %s %s' % (1 if c['le'] else 0, c['off'], fds_token(c.get('fds', [])), strhex(c['sig']),
                                        byteshex(c['data']))
     return 'p 1 %s %s' % (fds_token(c.get('fds', [])), byteshex(c['data']))
+
+
+XSTREAM = 'cost-vs-code-vs-impl'
+XMAX = 2048         # bytes of data up to which a case also goes to the `x` command (both list-based models are quadratic)
+
+
+def x_line(c):
+    """the driver's `x` command: cost model and value model (Wire/Code.lean) on the same unmarshal case."""
+    return 'x %d %d %s %s %s' % (1 if c['le'] else 0, c['off'], fds_token(c.get('fds', [])), strhex(c['sig']),
+                                 byteshex(c['data']))
+
+
+def c01_line(c):
+    """the same case in the line protocol of Driver/WireOps.lean (drv_c01 / drv_c02): descriptors as a list of plain ints."""
+    fds = c.get('fds', [])
+    fv = 'N' if fds is None else 'L %d' % len(fds) + ''.join(' i %d' % x for x in fds)
+    return 'unmarshal %s %d %s %s %s' % (strhex(c['sig']), c['off'], 'L' if c['le'] else 'B', byteshex(c['data']), fv)
+
+
+C01_NAMES = {'UnicodeError': 'UnicodeDecodeError'}
+
+
+def c01_verdict(line):
+    """(`ok` | `err:<Class>`, consumed) from a reply of drv_c01; None when it cannot be read."""
+    w = line.split()
+    if len(w) >= 2 and w[0] == 'ok' and w[1].isdigit():
+        return 'ok', int(w[1])
+    if len(w) == 2 and w[0] == 'err':
+        return 'err:' + C01_NAMES.get(w[1], w[1]), 0
+    return None
 
 
 def case_json(c):
@@ -917,8 +959,53 @@ class Runner:
         self.counter = Counter(marshal)
         self.pending = []       # (stream, case)
         self.frame_ratio = 1.0  # frames the tree under test uses per frame of the model's estimate (calibrate_frames)
+        self.c01 = self.locate_c01()   # path of C01's driver binary (read-only use), or None
         self.steps_hook = True  # wrapping marshal.unmarshallers sees the decoder's dispatches
         self.work_hook = True   # wrapping marshal.genCompleteTypes sees the pieces the decoder iterates over
+
+    def locate_c01(self):
+        """C01's driver (the value model as C01 / C02 run it), next to this property's own driver.  It is built by C01's
+        check, not by this one: used only when it is there and not older than the sources it is linked from (the tables
+        of the tree under test are regenerated before this harness runs)."""
+        ctx = self.ctx
+        try:
+            bindir = os.path.dirname(ctx.driver_path())
+            lean = os.path.dirname(os.path.dirname(os.path.dirname(bindir)))
+            exe = os.path.join(bindir, 'drv_c01')
+            if not os.path.exists(exe):
+                ctx.note('advisory: drv_c01 is not built; the cross-run through C01\'s driver is skipped '
+                         '(the value model is still run by this property\'s own driver)')
+                return None
+            srcs = [os.path.join(lean, 'TxdbusModel', 'Gen', 'Wire.lean'), os.path.join(lean, 'TxdbusModel', 'Wire', 'Code.lean'),
+                    os.path.join(lean, 'Driver', 'WireOps.lean')]
+            newer = [os.path.basename(f) for f in srcs if os.path.exists(f) and os.path.getmtime(f) > os.path.getmtime(exe)]
+            if newer:
+                ctx.note('advisory: drv_c01 is older than %s; the cross-run through C01\'s driver is skipped '
+                         '(the value model is still run by this property\'s own driver)' % ', '.join(newer))
+                return None
+            return exe
+        except Exception as e:
+            ctx.note('advisory: locating drv_c01 failed (%r); cross-run skipped' % (e,))
+            return None
+
+    def run_c01(self, cases):
+        """verdicts of drv_c01 for `cases` (list of (status, consumed) or None), or None when it is not usable."""
+        if self.c01 is None or not cases:
+            return None
+        try:
+            p = subprocess.run([self.c01], input=('\n'.join(c01_line(c) for c in cases) + '\n').encode(),
+                               stdout=subprocess.PIPE, stderr=subprocess.DEVNULL, timeout=1800)
+            out = p.stdout.decode('utf-8', 'replace').split('\n')
+            if out and out[-1] == '':
+                out.pop()
+            if p.returncode != 0 or len(out) != len(cases):
+                raise RuntimeError('rc=%s, %d lines in, %d lines out' % (p.returncode, len(cases), len(out)))
+            self.ctx.stat('c01-driver-lines', len(cases))
+            return [c01_verdict(ln) for ln in out]
+        except Exception as e:
+            self.ctx.note('advisory: drv_c01 could not be run (%r); cross-run skipped' % (e,))
+            self.c01 = None
+            return None
 
     def check_hooks(self):
         """The counters hang on two module-level names (`marshal.unmarshallers`, `marshal.genCompleteTypes`).  If a tree
@@ -1020,6 +1107,7 @@ class Runner:
             v = r['value']
             if c['op'] == 'u':
                 obs['consumed'] = v[0]
+                obs['nvalues'] = len(v[1])
                 obs['nodes'], obs['chars'] = nodes(v[1])
             else:
                 body = v.body if v.body is not None else []
@@ -1146,6 +1234,63 @@ class Runner:
         if bad:
             ctx.disagree(stream, cj, mline, {k: v for k, v in obs.items()}, detail=','.join(bad))
 
+    def judge_x(self, c, obs, xline, c01v):
+        """Stream cost-vs-code-vs-impl: the three verdicts on one unmarshal case.  `xline` = reply of the driver's `x`
+        command (cost model, value model), `obs` = the observation of the real decoder already made for the case's own
+        stream, `c01v` = verdict of drv_c01 or None."""
+        ctx = self.ctx
+        cj = case_json(c)
+        ctx.case(XSTREAM, sample=cj if len(cj['data']) < 400 else None, nontrivial=obs['steps'] >= 2)
+        m = xline.split()
+        if len(m) != 9 or not all(x.isdigit() for x in (m[1], m[2], m[4], m[5], m[6], m[7], m[8])):
+            ctx.disagree(XSTREAM, cj, xline, obs, detail='the driver could not read the case')
+            return
+        cost = (m[0], int(m[1]), int(m[2]))
+        code = (m[3], int(m[4]), int(m[5]))
+        code_fuel, cost_size, code_nodes = int(m[6]), int(m[7]), int(m[8])
+        ctx.stat('x-outcome=' + code[0])
+        if code_fuel != len(c['sig']) + max(len(c['data']) - c['off'], 0) + 1:       # Cost.codeFuel, mirrored
+            ctx.disagree(XSTREAM, cj, xline, obs, detail='codeFuel is not |sig| + (|data| - off) + 1')
+            return
+        if cost[0] == 'fuel' or code[0] == 'err:RecursionError':
+            ctx.disagree(XSTREAM, cj, xline, obs, detail='a model ran out of the proved fuel (fuelFor / codeFuel)')
+            return
+        if cost != code or (code[0] == 'ok' and code_nodes > cost_size + 1):
+            ctx.disagree(XSTREAM, cj, xline, obs,
+                         detail='the cost model and the value model differ (theorem cost_agrees_with_code says they cannot)')
+            return
+        # the value model as C01's own driver runs it (fixed fuel 300: deeper nesting is RecursionError there)
+        if c01v is not None:
+            if c01v[0] == 'err:RecursionError':
+                ctx.stat('c01-driver: RecursionError at its fixed fuel 300')
+            elif c01v != (code[0], code[1]):
+                ctx.disagree(XSTREAM, cj, xline, {'drv_c01': list(c01v)},
+                             detail='drv_c01 (the value model as C01 runs it) differs from the value model run by drv_c05')
+        # the real decoder against the value model: same tolerances as the correspondence of the cost model
+        st = obs['status']
+        if st in ('ALARM', 'BUDGET', 'MEMORY'):
+            return                      # reported by the case's own stream
+        if st == 'err:RecursionError':
+            ctx.stat('x-recursion-error (CPython limit, not modelled)')
+            return
+        if c.get('fds', []) is None and code[0] == 'err:TypeError' and st != code[0]:
+            return                      # oobFDs=None tolerated by the tree: see judge()
+        bad = []
+        if (code[0] == 'ok') != (st == 'ok'):
+            bad.append('outcome')
+        elif st == 'ok':
+            if code[1] != obs['consumed']:
+                bad.append('consumed')
+            if code[2] != obs['nvalues']:
+                bad.append('values')
+            if code_nodes != obs['nodes']:         # PyVal.nodes / nodesList (Wire/CostValue.lean) vs nodes() above
+                bad.append('nodes')
+        elif code[0] != st:
+            ctx.stat('x-error-class-drift %s (models %s)' % (st, code[0]))
+        if bad:
+            ctx.disagree(XSTREAM, cj, xline, {k: v for k, v in obs.items()},
+                         detail='value model (and cost model) vs implementation: ' + ','.join(bad))
+
     def scaling(self, sizes, with_cpu):
         """Model-independent: the same shape at n and 4n bytes must cost about 4 times as much - counted invocations and
         counted work always, CPU time (gc off, best of two) only where asked (thorough tier)."""
@@ -1221,16 +1366,22 @@ class Runner:
         if not self.pending:
             return
         pend, self.pending = self.pending, []
+        xi = [i for i, (_, c) in enumerate(pend) if c['op'] == 'u' and len(c['data']) <= XMAX and len(c['sig']) <= XMAX]
         try:
-            out = self.ctx.model([case_line(c) for _, c in pend])
+            out = self.ctx.model([case_line(c) for _, c in pend] + [x_line(pend[i][1]) for i in xi])
         except Exception as e:           # driver failure: report once as a disagreement of the first stream
             self.ctx.disagree(pend[0][0], case_json(pend[0][1]), 'driver failed: %r' % (e,), None)
             out = None
+        xout = dict(zip(xi, out[len(pend):])) if out else {}
+        c01 = self.run_c01([pend[i][1] for i in xi]) if out else None
+        c01v = dict(zip(xi, c01)) if c01 else {}
         self.counter.install()
         try:
             for i, (stream, c) in enumerate(pend):
                 obs = self.impl(c)
                 self.judge(stream, c, obs, out[i] if out else None)
+                if i in xout:
+                    self.judge_x(c, obs, xout[i], c01v.get(i))
         finally:
             self.counter.restore()
 
